@@ -134,14 +134,12 @@ std::string compare(const FP& was, const FP& now, bool container)
          return nm;
       }
       if (a.data == b.data) continue;
-      if (!container) return nm;
-      if (a.kind == 2) {
-         // prefix rule: [size, e0, e1, ...] -> size may grow, earlier elements stay
-         if (a.data.empty() || b.data.empty() || b.data[0] < a.data[0] || b.data.size() < a.data.size()) return nm;
-         for (std::size_t k = 1; k < a.data.size(); ++k) if (a.data[k] != b.data[k]) return nm;
-      }
-      // a scalar or node-valued accessor of a container: sizes and derived products may change with the members; only
-      // sequences are held to the prefix rule there
+      // the one scalar of a container that is defined from its membership: Block::try_block() <=> it has handlers
+      if (container && a.kind == 0 && std::strcmp(nm, "try_block") == 0) continue;
+      if (!container || a.kind != 2) return nm;
+      // prefix rule: [size, e0, e1, ...] -> size may grow, earlier elements stay
+      if (a.data.empty() || b.data.empty() || b.data[0] < a.data[0] || b.data.size() < a.data.size()) return nm;
+      for (std::size_t k = 1; k < a.data.size(); ++k) if (a.data[k] != b.data[k]) return nm;
    }
    return "";
 }
@@ -246,7 +244,7 @@ struct History {
    {
       ++step;
       const Lexicon& L = lex;
-      const int k = int(rng.below(24));
+      const int k = int(rng.below(26));
       switch (k) {
       case 0: S->exprs_unary(); break; case 1: S->exprs_binary(); break; case 2: S->exprs_other(); break; case 3: S->stmts(); break; case 4: S->directives(); break;
       case 5: S->types_and_names(); break; case 6: S->decls_and_regions(); break; case 7: S->forms(); break; case 8: S->attributes_captures_units(); break;
@@ -278,6 +276,29 @@ struct History {
       case 21: { int n = 1 + int(rng.below(20)); for (int i = 0; i < n; ++i) fresh_generative(*un->declare_field(id("uf", serial++), T()), "declare_field"); break; }
       case 22: { // many overload sets in one scope, and redeclarations (decl-sets grow)
          int n = 5 + int(rng.below(60)); for (int i = 0; i < n; ++i) fresh_generative(*unit.global_scope()->make_var(id("g", int(rng.below(80))), *tpool[rng.below(4)]), "make_var"); break; }
+      case 23: { // first declarations and redeclarations of every declaration kind (one kind per name; repeated (name, type) pairs):
+                 // whatever a redeclaration does, the earlier declarations of the set must keep reporting what they did
+         impl::Scope& sc = *(rng.chance(50) ? unit.global_scope() : &ns->body.scope);
+         impl::Warehouse<Type> w1; w1.push_back(L.int_type());
+         auto& p1 = lex.get_product(w1);
+         const Function* fts[] = { &lex.get_function(p1, L.int_type()), &lex.get_function(p1, L.void_type()) };
+         const Forall* fas[] = { &lex.get_forall(p1, L.class_type()), &lex.get_forall(p1, *fts[0]) };
+         int n = 2 + int(rng.below(12));
+         for (int i = 0; i < n; ++i) {
+            const int which = int(rng.below(2)), nm = int(rng.below(3));
+            switch (rng.below(8)) {
+            case 0: fresh_generative(*sc.make_var(id("rv", nm), *tpool[std::size_t(which)]), "make_var"); break;
+            case 1: fresh_generative(*sc.make_field(id("rf", nm), *tpool[std::size_t(which)]), "make_field"); break;
+            case 2: { auto* d = sc.make_bitfield(id("rb", nm), *tpool[std::size_t(which)]); d->length = lex.make_literal(L.int_type(), u8"3"); fresh_generative(*d, "make_bitfield"); break; }
+            case 3: fresh_generative(*sc.make_alias(id("ra", nm), *lex.make_literal(*tpool[std::size_t(which)], u8"0")), "make_alias"); break;
+            case 4: fresh_generative(*sc.make_typedecl(id("rt", nm), which ? L.class_type() : L.typename_type()), "make_typedecl"); break;
+            case 5: fresh_generative(*sc.make_fundecl(id("rfn", nm), *fts[which]), "make_fundecl"); break;
+            case 6: { auto* d = sc.make_primary_template(id("rp", nm), *fas[which]); fresh_generative(*d, "make_primary_template"); break; }
+            default: { auto* d = sc.make_secondary_template(id("rs", nm), *fas[which]); fresh_generative(*d, "make_secondary_template"); break; }
+            }
+         }
+         C.count("redeclaration_steps");
+         break; }
       default: { int n = 1 + int(rng.below(50)); for (int i = 0; i < n; ++i) { fresh_generative(*lex.make_literal(T(), widen("fresh" + std::to_string(serial++))), "make_literal(fresh spelling)"); fresh_generative(*lex.make_id_expr(id("x", serial++)), "make_id_expr"); } break; }
       }
       C.count(std::string("steps:") + (k < 9 ? "sweep-section" : k == 16 ? "unified-table-growth" : k == 17 ? "words" : "member-addition"));
@@ -292,7 +313,7 @@ static void body(Ctx& C)
           "expression list / region chain / pragma / global scope, growth of unified tables, words across pool roll-overs, new units and modules): its identity fingerprint (every "
           "zero-argument const accessor of its interface class: addresses, values, spelling bytes, element addresses, absences) must be what it was, except that sequences of container "
           "nodes may have grown at their end; sweep shadows are re-run; generative results are pairwise distinct; ASan traps stale storage; distinct = distinct (node label, age in steps)");
-   C.assume("containers (regions, scopes, overload sets, user-defined types, blocks, lists, mappings, declarations with their decl-sets) may change scalar/derived accessors as members are added; their sequences are held to the prefix rule");
+   C.assume("for containers (regions, scopes, overload sets, user-defined types, blocks, lists, mappings, declarations with their decl-sets) a sequence may grow at its end (prefix rule), a part that was absent may have been supplied by the history, and Block::try_block() follows the handlers; everything else must be identical");
    Rng seeds(C.seed);
    const int shorts = C.thorough ? 40 : 3, longs = C.thorough ? 2 : 0;
    for (int h = 0; h < shorts + longs; ++h) {
@@ -310,7 +331,7 @@ static void body(Ctx& C)
       C.maxi("nodes_in_one_history", (long long)H.items.size()); C.maxi("steps_in_one_history", H.step);
       C.maxi("enumerators_in_grown_enum", (long long)H.en->members().size()); C.maxi("statements_in_grown_block", (long long)H.blk->body().size()); C.maxi("elements_in_grown_expr_list", (long long)H.xl->size());
    }
-   for (auto k : { "histories", "steps", "reobservations", "shadow_reruns", "generative_results", "nodes_registered", "full_reobservations", "steps:sweep-section", "steps:unified-table-growth", "steps:words", "steps:member-addition" }) C.need(k);
+   for (auto k : { "histories", "steps", "reobservations", "shadow_reruns", "generative_results", "nodes_registered", "full_reobservations", "steps:sweep-section", "steps:unified-table-growth", "steps:words", "steps:member-addition", "redeclaration_steps" }) C.need(k);
    C.need("string_pools", 2);
    C.sample(J().s("kind", "history").s("what", "open 9 containers + sweep; 60..120 steps (1500 in long histories) drawn from 24 step kinds; 80 nodes re-observed after every step, all nodes every 20th step and at the end").str());
 }
